@@ -31,7 +31,8 @@ Lines ==
     [] Universe = "F"  -> { [t |-> "H", l |-> l, f |-> TRUE] : l \in 1..3 } \cup { [t |-> "L", p |-> p, f |-> TRUE] : p \in Markers(2) }
                           \cup { [t |-> "P", f |-> TRUE], R, P }
 
-W(i) == "w" \o ToString(i)
+Words == [i \in 1..40 |-> "w" \o ToString(i)]   \* constant: evaluated once
+W(i) == Words[i]
 HasF(line) == "f" \in DOMAIN line /\ line.f
 Fil(line) == IF HasF(line) THEN << [k |-> "SP", n |-> 1], [k |-> "MAGIC", m |-> "F"] >> ELSE <<>>
 Tokens(line, i) ==
@@ -56,20 +57,21 @@ Next == \E l \in Lines : AddLine(l)
 Spec == Init /\ [][Next]_vars
 
 Plain(d) == [i \in 1..Len(d) |-> [x \in (DOMAIN d[i]) \ {"f"} |-> d[i][x]]]
-Tree == Finish(pst, {}).root
-MRel == TreeRelations(Tree, doc, W)
-Ref == RefRelations(Plain(doc))
-\* M: the transcribed algorithm (with the rule fix) realises the nesting model
-MachineOK == ~pst.stuck /\ MRel = Ref
-\* the as-is machine (hline_fn without LEVEL1 in its stop set) -- used by Demo_ and for classification
-AsIsDiffers == (\E i \in 1..Len(doc) : doc[i].t = "R") /\ (\E i \in 1..Len(doc) : doc[i].t = "H" /\ doc[i].l = 1)
-AsIsTree == MachineTree(doc, AllDevs)
-AsIsOK == TreeRelations(AsIsTree, doc, W) = Ref
-
-Emit ==
-  LET base == [doc |-> Plain(doc), rel |-> Ref, tree |-> Tree] IN
-  PrintT(<<"CASE", ToJson(IF AsIsDiffers /\ AsIsTree # Tree
-                          THEN base @@ [asis |-> TreeRelations(AsIsTree, doc, W), treeA |-> AsIsTree]
-                          ELSE base)>>)
-GenInv == Emit
+AsIsRelevant == (\E i \in 1..Len(doc) : doc[i].t = "R") /\ (\E i \in 1..Len(doc) : doc[i].t = "H" /\ doc[i].l = 1)
+\* M: the transcribed algorithm (with the rule fix) realises the nesting model;
+\* G: the case is printed with what the model demands
+Case ==
+  \* (bound variables are evaluated once; LET definitions would be re-evaluated on every use)
+  \E tree \in { Finish(pst, {}).root } :
+  \E ref \in { RefRelations(Plain(doc)) } :
+  \E treeA \in { IF AsIsRelevant THEN MachineTree(doc, AllDevs) ELSE tree } :
+    LET base == [doc |-> Plain(doc), rel |-> ref, tree |-> tree] IN
+    /\ PrintT(<<"CASE", ToJson(IF treeA # tree
+                                 THEN base @@ [asis |-> TreeRelations(treeA, doc, W), treeA |-> treeA]
+                                 ELSE base)>>)
+    /\ ~pst.stuck
+    /\ TreeRelations(tree, doc, W) = ref
+MachineOK == Case
+\* Demo: the as-is machine (hline_fn without LEVEL1 in its stop set) against the model
+AsIsOK == TreeRelations(MachineTree(doc, AllDevs), doc, W) = RefRelations(Plain(doc))
 =============================================================================
